@@ -11,7 +11,7 @@ structure Output where
   addr : Bytes
   amount : Value
   datumHash : Option Bytes := none
-  /-- inline datum as its CBOR bytes, plus Python truthiness of the datum object -/
+  /-- inline datum as its CBOR bytes (the Boolean, Python truthiness of the datum object, is no longer consulted) -/
   datum : Option (Bytes × Bool) := none
   /-- reference script as the CBOR bytes of `[type, script]` -/
   script : Option Bytes := none
@@ -37,9 +37,8 @@ def itemMap (o : Output) : Item :=
 def itemLegacy (o : Output) : Item :=
   .array ([.bytes o.addr, itemValue o.amount] ++ (match o.datumHash with | some h => [.bytes h] | none => []))
 
-/-- `if self.datum or self.script or self.post_alonzo` (truthiness of the datum object) -/
-def usesMap (o : Output) : Bool :=
-  (match o.datum with | some (_, t) => t | none => false) || o.script.isSome || o.postAlonzo
+/-- `if self.datum is not None or self.script is not None or self.post_alonzo` -/
+def usesMap (o : Output) : Bool := o.datum.isSome || o.script.isSome || o.postAlonzo
 
 /-- `TransactionOutput.to_primitive` -/
 def item (o : Output) : Item := if usesMap o then itemMap o else itemLegacy o
